@@ -586,6 +586,30 @@ def g14(ctx):
                        '%s: the character class of %s is a predicate or expression, not a literal/constant set: which characters the lexer '
                        'accepts is not statically known (fail closed; e.g. char::is_whitespace also accepts U+000B, U+0085, U+00A0, U+2028)'
                        % (f.name, desc))
+    # digit runs: a lexeme of the form  CLASS { "_" | CLASS' }  (numbers: A.8.7 "octal_digit { _ | octal_digit }") must continue with at least
+    # the characters it may start with — a narrower continuation class ends the value in the middle of a literal, after an underscore
+    for f in g.parsers():
+        if not lexeme_fn(f) or f.ir is None or f.ir.get('op') != 'seq':
+            continue
+        parts_ = f.ir.get('parts', [])
+        if len(parts_) != 2 or parts_[0].get('op') != 'prim' or parts_[1].get('op') not in ('many0', 'fold_many0', 'many1'):
+            continue
+        c0, d0 = charset(parts_[0])
+        inner_ = parts_[1].get('p', {})
+        arms_ = inner_.get('arms', []) if inner_.get('op') == 'alt' else [inner_]
+        has_us = any((a_.get('op') == 'lit' and a_.get('text') == '_') or (a_.get('op') == 'prim' and a_['name'] == 'tag' and a_['args'] and sx.lit_str(a_['args'][0]) == '_') for a_ in arms_)
+        cls_arms = [a_ for a_ in arms_ if a_.get('op') == 'prim' and a_['name'] not in ('tag',)]
+        if not has_us or len(cls_arms) != 1 or parts_[0]['name'] in ('is_not', 'none_of') or cls_arms[0]['name'] in ('is_not', 'none_of'):
+            continue
+        c1, d1 = charset(cls_arms[0])
+        if c0 is None or c1 is None:
+            continue
+        r.inst('digit-run:%s' % f.name, {'fn': f.name, 'first': d0, 'then': d1})
+        lost = sorted(c0 - c1 - {'_'})
+        if lost:
+            r.fail('%s:%s:digit-run-continuation' % (g.crate, f.name), '%s/%s:%d' % (g.crate, f.file, f.line),
+                   '%s starts a value with %s but continues it (after an underscore or the first run) only with %s: %s can begin the value and cannot continue it, so a literal such as '
+                   '`%s_%s` ends after the underscore and the sentence is rejected' % (f.name, d0, d1, ''.join(lost)[:12], sorted(c0)[0], lost[-1]))
     # trivia role: what white_space itself (and the span-returning helpers it uses) accepts as blanks
     ws_role = None
     wsf = g.fns.get('ws')
